@@ -1,5 +1,6 @@
 import Sml.Props.C12
 import Sml.Lemmas.SmallFixes
+import Sml.Lemmas.Review2a
 
 #print axioms Sml.C12.tlf_eq_spec
 #print axioms Sml.C12.tlf_rest
@@ -26,3 +27,5 @@ import Sml.Lemmas.SmallFixes
 #print axioms Sml.C12.narrow_least
 #print axioms Sml.C12.contError_overflow_iff
 #print axioms Sml.C12.contError_eq_overflow_iff
+#print axioms Sml.C12.tlf_consumes_prefix
+#print axioms Sml.C12.tlfSpec_len_le
